@@ -46,7 +46,7 @@ RULE = ("E-states: a state is a sequence of line tokens (the file prefix); every
 BOUNDS = {
   "quick": "E-states: all sequences of <= 7 tokens over 6 line tokens x 3 renderings; E-inputs: hours "
            "{00,01,99,100,999} x min/sec {00,59} x all 1000 ms as begin and as end, fps {24,25,30} direct and through "
-           "the IMSC writer in frames mode; 10 tag-tree shapes (depth <= 3) x 16 tag spellings per slot; lay-out "
+           "the IMSC writer in frames mode; 10 tag-tree shapes (depth <= 3) x 17 tag spellings per slot; lay-out "
            "product (1-3 cues x 1-5 lines x LF/CRLF x leading/separating/trailing blank runs x 2/3 hour digits x 4 "
            "payload styles); all tag-token sequences <= 4; SRT writer round trip over 1296 documents x 2 configurations",
   "thorough": "as quick with E-states depth 8 and tag-token sequences <= 5",
@@ -468,7 +468,8 @@ TAGS = (
   + [("{%s}" % t, "{/%s}" % t) for t in ("b", "i", "u")]
   + [("{%s}" % t, "{/%s}" % t) for t in ("bold", "italic", "underline")]
   + [('<font color="red">', "</font>"), ('<font color="#00ff00">', "</font>"), ("<font color='#0000ffcc'>", "</font>"),
-     ('<font color="#ff000000">', "</font>")]        # alpha 00 is a value, not an absent component
+     ('<font color="#ff000000">', "</font>"),        # alpha 00 is a value, not an absent component
+     ('<font color="rgb(255, 128, 0)">', "</font>")]  # functional notation, three different components
 )
 
 # shapes: A B C are tag slots, words are text, "|" is a line break
